@@ -200,7 +200,7 @@ def planted(rng, gen):
     for _ in range(rng.randint(0, 6)):
         nodes = anytrees.judged_nodes(t)
         n = rng.choice(nodes)
-        kind = rng.choice(["content", "attr", "child", "last_child", "unknown_child", "below_invalid", "dup", "same_id", "mixed_pair", "mixed_pair"])
+        kind = rng.choice(["content", "attr", "child", "last_child", "unknown_child", "below_invalid", "dup", "same_id", "mixed_pair", "mixed_pair", "echo", "echo"])
         if kind == "content":
             n.content = rng.choice(treegen.BAD_CONTENT)
         elif kind == "attr":
@@ -230,6 +230,25 @@ def planted(rng, gen):
                         first.add_child(Node("value" if _mr.node_mappings[first.name] == "anyNameRule" else "para", content="x"))
                     later.content = None
                     later.remove_children()
+        elif kind == "echo":
+            # a later node with a child out of position, and an earlier node (document order) with a stray child of the very name the
+            # later node's error mentions: errors of different nodes that talk about the same thing are still errors of each node
+            from vlib.emlkit import mvalidate as _mv
+            cands = [x for x in nodes if len({c.name for c in x.children}) >= 2 and x.name != "metadata"]
+            if cands:
+                later = rng.choice(cands)
+                later.children.append(later.children.pop(0))
+                errs = []
+                try:
+                    _mv.node(later, errs)
+                except Exception:
+                    errs = []
+                mentioned = sorted({d for e in errs for d in e[3:] if isinstance(d, str) and d})[:3]
+                before = nodes[:nodes.index(later)]
+                for nm in mentioned:
+                    for q in rng.sample(before, min(2, len(before))):
+                        q.add_child(Node(nm))
+                n = later
         elif kind == "same_id":
             # two distinct nodes carrying one id string (loading a document twice, caller-supplied ids): still two nodes to judge
             twin = Node(n.name, id=n.id, content=rng.choice([None, "x", n.content]))
